@@ -20,7 +20,8 @@ def run(ctx, rep):
     area_wiring(prog, rep)
     pairing(prog, rep, "R06.3")
     geometry_inputs(prog, rep, "R06.4", only=("rectangle", "circle", "ellipse", "rounded_rectangle"))
-
+    from rules import axis
+    axis.run_for(ctx.program("default"), rep, 'R06.5', ['src/primitives/rectangle/styled.rs', 'src/primitives/primitive_style.rs', 'src/primitives/circle', 'src/primitives/ellipse', 'src/primitives/rounded_rectangle', 'src/primitives/common/styled_scanline.rs', 'src/primitives/common/scanline.rs'], 'stroke and fill areas of the closed shapes are computed per axis')
 
 def split_tables(prog, rep):
     sa = {v["discr"]: v["name"] for v in prog.adts[PRIM + "primitive_style::StrokeAlignment"]["variants"]}
